@@ -139,6 +139,9 @@ func buildWorkflow(s *spec.Spec) (*sp.Workflow, map[string]*node) {
 					p.SetOut(o.Port, o.Pattern)
 				}
 			}
+			if ps.NoSpawn {
+				p.Spawn = false
+			}
 			if ps.Cores > 0 {
 				p.CoresPerTask = ps.Cores
 			}
